@@ -8,7 +8,7 @@
 From RV Require Import Prelude.
 From Coq Require Import Permutation Sorted.
 From OnnxRef Require Import RefBase OnnxRef ModelC15 RefBase_proofs Bcast_proofs Transpose_proofs Concat_proofs
-  Slice_proofs Gather_proofs Reduce_proofs Misc_proofs Reshape_proofs TopK_proofs Oracle_proofs.
+  Slice_proofs Gather_proofs Reduce_proofs Misc_proofs Reshape_proofs TopK_proofs Pool_proofs Oracle_proofs.
 Open Scope nat_scope.
 
 Theorem C15_get_tab : forall sh f idx,
@@ -421,7 +421,7 @@ Proof. exact reduce_spec. Qed.
 Theorem C15_reduce_op_spec : forall k keepdims noop x axes,
   let r := length (shape x) in
   let ax := match axes with Some a => a | None => [] end in
-  (ax = [] -> noop = true -> reduce_op k keepdims noop x axes = Some x) /\
+  (ax = [] -> noop = true -> reduce_op k keepdims noop x axes = if red_idempotent k then Some x else None) /\
   (ax = [] -> noop = false -> reduce_op k keepdims noop x axes = reduce k keepdims x (seq 0 r)) /\
   (ax <> [] -> forall ks, norm_axes r ax = Some ks -> nodupb ks = true ->
      reduce_op k keepdims noop x axes = reduce k keepdims x ks) /\
@@ -616,6 +616,27 @@ Theorem C15_topk_spec : forall largest axis k x v i,
       get v idx = fst (nth (nth ax idx 0) out (0%Z, 0)) /\
       get i idx = Z.of_nat (snd (nth (nth ax idx 0) out (0%Z, 0))).
 Proof. exact topk_spec. Qed.
+
+(* the input coordinates seen by output position i: r is in the window iff it is a real
+   (un-padded) coordinate whose padded position r + p lies in [i*s, i*s + k) *)
+Theorem C15_pool_window_spec : forall d k s p i r,
+  In r (pool_window d k s p i) <-> r < d /\ i * s <= r + p < i * s + k.
+Proof. exact pool_window_spec. Qed.
+
+(* ONNX MaxPool (2-D, floor mode, explicit pads, dilation 1, default storage order):
+   out[b, c, i, j] is the maximum of x[b, c, r, q] over the window positions that are not padding;
+   the output extent is floor((d + pad_begin + pad_end - k) / stride) + 1 *)
+Theorem C15_maxpool2d_spec : forall kh kw sh sw pt pl pb pr x y,
+  maxpool2d kh kw sh sw pt pl pb pr x = Some y ->
+  exists n c h w, shape x = [n; c; h; w] /\
+    1 <= kh /\ 1 <= kw /\ 1 <= sh /\ 1 <= sw /\ kh <= h + pt + pb /\ kw <= w + pl + pr /\
+    shape y = [n; c; (h + pt + pb - kh) / sh + 1; (w + pl + pr - kw) / sw + 1] /\ wf y /\
+    forall b ch i j, valid (shape y) [b; ch; i; j] ->
+      (exists r q, In r (pool_window h kh sh pt i) /\ In q (pool_window w kw sw pl j) /\
+                   get y [b; ch; i; j] = get x [b; ch; r; q]) /\
+      (forall r q, In r (pool_window h kh sh pt i) -> In q (pool_window w kw sw pl j) ->
+                   valid (shape x) [b; ch; r; q] /\ (get x [b; ch; r; q] <= get y [b; ch; i; j])%Z).
+Proof. exact maxpool2d_spec. Qed.
 
 (* one output agrees iff rten reported exactly the reference's element kind, shape and values *)
 Theorem C15_out_eqb_spec : forall r o,
